@@ -44,10 +44,19 @@ impl Decoder for WithLengthBytesCodec {
             Ok(None)
         } else {
             let mut bytes = src.as_ref();
-            let len = bytes.get_u64() as usize;
-            if src.remaining() >= LEN_SIZE + len {
+            let len = bytes.get_u64();
+            let required = usize::try_from(len)
+                .ok()
+                .and_then(|len| len.checked_add(LEN_SIZE))
+                .ok_or_else(|| {
+                    std::io::Error::new(
+                        std::io::ErrorKind::InvalidData,
+                        format!("Invalid length: {}", len),
+                    )
+                })?;
+            if src.remaining() >= required {
                 src.advance(LEN_SIZE);
-                Ok(Some(src.split_to(len)))
+                Ok(Some(src.split_to(required - LEN_SIZE)))
             } else {
                 Ok(None)
             }
